@@ -2606,8 +2606,9 @@ class PEval:
             return list(seq)
         if fname == "collect" and ret_t.split("<")[0] in self.lib.adts and isinstance(a0, (Iter, list)):
             # a local `impl FromIterator<..> for T`
-            pref = "<%s as core::iter::traits::collect::FromIterator<" % ret_t.split("<")[0]
-            cands = [f for k, f in self.lib.fns.items() if k.startswith(pref) and k.endswith(">::from_iter") and thir.body_of(f)]
+            base = "<" + ret_t.split("<")[0]       # the impl may carry generic / lifetime parameters: `<T<'a> as FromIterator<..>>`
+            cands = [f for k, f in self.lib.fns.items() if k.startswith(base) and k[len(base):len(base) + 1] in (" ", "<") and
+                     " as core::iter::traits::collect::FromIterator<" in k and k.endswith(">::from_iter") and thir.body_of(f)]
             if cands:
                 want = None
                 seq = a0.rest() if isinstance(a0, Iter) else a0
